@@ -31,6 +31,7 @@ mod e02;
 mod e04;
 mod e05;
 mod e07;
+mod e08;
 mod c05;
 
 #[global_allocator]
@@ -75,6 +76,7 @@ fn props() -> Vec<Prop> {
         Prop { id: "E05", run: e05::run, gen: e05::gen },
         Prop { id: "E06", run: c13::run, gen: c13::gen_e06 },
         Prop { id: "E07", run: e07::run, gen: e07::gen },
+        Prop { id: "E08", run: e08::run, gen: e08::gen },
     ]
 }
 
